@@ -38,8 +38,10 @@ class TotalsMonotoneInCostInputs(Contract, Relational):
         "C18 cost inputs: the additive user-supplied cost inputs of Economics.Calculate (fixed well / stimulation / plant "
         "/ gathering / exploration / total capital cost, fixed well / plant / water / total O&M, chiller and heat-pump "
         "capital cost), each inside its declared range in both runs; adjustment FACTORS multiply correlation values whose "
-        "sign is not under contract and are not decided; NPV monotonicity follows from the C04 cash-flow clauses only "
-        "informally (NPV is an uninterpreted library function of the series, A3)",)
+        "sign is not under contract and are not decided; 'NPV does not increase' is decided link by link - these two "
+        "clauses, the C04 cash-flow clauses (every year's cash flow is -CCap/cy or revenue - Coam) and the contract "
+        "NpvMonotoneInSeries below - the composition is not a single machine-checked obligation; callees under contract that are "
+        "functions of scalar arguments only, and extrema of the same array, are the same in both runs (determinism)",)
 
     def configs(self):
         want = {(1, 1), (2, 5), (2, 6), (2, 9), (31, 1)}
@@ -102,3 +104,50 @@ class ChillerCostUnderFixedPlantCost(TotalsMonotoneInCostInputs):
 
     def ensures_rel(self, s1, s2, r1, r2):
         return {"total_oam_cost_does_not_decrease": s2.self.Coam.value >= s1.self.Coam.value}
+
+
+# ---------------------------------------------------------------------------------------------------------------------
+# NPV is monotone in the cash-flow series (the last link of 'NPV does not increase when a cost input increases':
+# Economics.Calculate raises CCap / Coam (above), the C04 clauses make every year's cash flow -CCap/cy or
+# revenue - Coam, and a pointwise lower series has a lower NPV at any rate >= 0 - this contract).
+from contracts.c04_cashflow import CalculateFinancialPerformance as CFP  # noqa: E402
+from pyvc.spec import ForAll, Len  # noqa: E402
+from pyvc.values import Seq  # noqa: E402
+
+
+@contract
+class NpvMonotoneInSeries(Contract, Relational):
+    key = CFP.key
+    label = "CalculateFinancialPerformance[series - delta(k)]"
+    property_ids = ("C18",)
+    params = CFP.params
+    result = CFP.result
+    shared_symbols = True
+    assumptions = ("C18 NPV link: stated for a fixed internal rate >= 0 (its declared range); the second run's yearly cash "
+                   "flow is the first run's minus an arbitrary non-negative amount per year",)
+
+    def requires(self, s):
+        return CFP.requires(self, s)
+
+    def second_run_args(self, cfg):
+        d = z3.Function("delta_series", z3.IntSort(), z3.RealSort())
+
+        def lower(ex, v):
+            sq = v
+            return Seq(sq.kind, sq.n, fn=lambda j: to_real(sq.get(j)) - d(j if z3.is_expr(j) else z3.IntVal(j)), et="real")
+        return {"TotalRevenue": lower}
+
+    def extra_axioms(self, ctx):
+        from contracts.c11_scaling import _FakeEx
+        from pyvc.intrinsics import pow_quantified_axioms
+        from pyvc.sigma import sum_sign_lemmas
+        return sum_sign_lemmas(ctx) + pow_quantified_axioms(_FakeEx(ctx))
+
+    def relate(self, s1, s2):
+        d = z3.Function("delta_series", z3.IntSort(), z3.RealSort())
+        j = z3.Int("dj")
+        from pyvc.spec import V
+        return {"amounts_nonneg": V(z3.ForAll([j], d(j) >= 0)), "rate_in_declared_range": s1.FixedInternalRate >= 0}
+
+    def ensures_rel(self, s1, s2, r1, r2):
+        return {"npv_does_not_increase_when_every_year_is_lower": r2[0] <= r1[0]}
